@@ -457,6 +457,14 @@ def resolve_strategy_record_conflicts(base_path, base, decisions):
     #conflict_decisions = [d for d in decisions if d.conflict]
     decisions.decisions = [d for d in decisions if not d.conflict]
 
+    # A change either side made to a previous nbdime-conflicts field is
+    # superseded by the record written below (two entries for one key
+    # cannot be applied)
+    def touches_record(d):
+        return any(e.key == "nbdime-conflicts"
+                   for e in (d.local_diff or []) + (d.remote_diff or []))
+    decisions.decisions = [d for d in decisions if not touches_record(d)]
+
     # Record remaining conflicts in field nbdime-conflicts
     conflicts_dict = {
         "local_diff": local_conflict_diffs,
